@@ -4,6 +4,7 @@ import GraphSlam.Model.Chi2
 import GraphSlam.Model.Ctl
 import Driver.Asm
 import Driver.Iter
+import Driver.NumIter
 import Driver.Heap
 import GraphSlam.Model.NumJac
 
@@ -15,6 +16,9 @@ import GraphSlam.Model.NumJac
   asm <graph snapshot>                   Model.contribs / accumulate / fillGradient / fillHessian (see Driver/Asm.lean)
   iter <typed graph> <dx>                Model.step: one whole iteration on a typed graph (see Driver/Iter.lean)
   run <tol> <maxIter> <typed graph> <dx>* Model.optimizeRun: a whole optimize() call (see Driver/Iter.lean)
+  numiter <typed graph> <dx>             Props.C16.numSystem / numStep (eps = 1e-6): one iteration with every edge differentiated
+                                         numerically by BaseEdge.calc_jacobians (see Driver/NumIter.lean)
+  numiterm <typed graph> <dx>            the same through numSystemMemo (= numSystem, proved; Jacobians tabulated once)
   fixedidx <ffp> <n> <flag>*n <gidx>*n   flags after fix_first_pose and the fixed gradient-index set (graph.py:429-433)
   fd <eps> <m> <err0>*m <errd>*m         Model.fdColumn: one column of the numerical Jacobian
   ctl <tol> <eps> <maxIter> <chi2>*      Model.optimizeCtl: the report of Graph.optimize from the chi2 sequence
@@ -45,6 +49,8 @@ def handle (line : String) : String :=
     | _, _, _, _ => "err bad-args"
   | "asm" :: rest => handleAsm rest
   | "iter" :: rest => handleIter rest
+  | "numiter" :: rest => handleNumIter rest
+  | "numiterm" :: rest => handleNumIterM rest
   | "run" :: rest => handleRun rest
   | "heap" :: rest => heapCmd rest
   | "fixedidx" :: ffp :: n :: rest =>
